@@ -28,11 +28,6 @@ NODE_MODES = ["list", "tuple", "gen", "iter", "keys", "map"]
 NB_MODES = ["list", "tuple", "gen", "iter", "shared"]
 _MIXED = [None, False, "", (), 0.5, "x", (1, 2), frozenset({1}), 300, -1, "ab", (0,), 1e300, 2**60, b"q", (None,), "None", 7.25]
 
-KF_NONE = "C15-artic-none-label"
-KF_DEPTH = "C15-artic-recursion-depth"
-KF_UNORD = "C15-unorderable-labels"
-
-
 def label_of(mode, i, none_id=None):
     if mode == "ident":
         return i
@@ -147,23 +142,14 @@ def gen_pres(rng):
 IDENT = ("ident", "list", "list")
 
 
-def gate(ctx, fid, what, rep, bad):
-    """a failure that belongs to a reported defect class: KNOWN-FINDING if /verif/known_findings.json lists it as open,
-    a violation otherwise"""
-    if any(f.get("id") == fid for f in ctx.open_findings()):
-        ctx.known_hit(fid, what)
-    else:
-        bad.append((what, rep))
-
-
 # ---------------------------------------------------------------- M / O : option corners for the main stream
 def gen_params_corner(rng):
     """(damping p/q, tol, max_iter, resolution) from the corners of the option space"""
     dpq = rng.choice([(17, 20), (17, 20), (1, 10**12), (10**12 - 1, 10**12), (1, 10**9), (999999999, 10**9), (1, 2), (84, 100), (86, 100)])
     tol = rng.choice([0.0, 1e-300, 1e-15, 1e-12, 1e-9, 1e-6, 1e-6, 0.999999e-6, 1.000001e-6, 1.0, 1e9, 0.3 - 0.1 - 0.2 + 1e-6])
     mi = rng.choice([0, 1, 2, 3, 4, 7, 16, 17, 24, 99, 100, 101, 10**9])
-    if tol < 1e-9 and mi > 24:
-        mi = rng.choice([1, 2, 5, 12])  # would not converge: keep the run (and the Q model) short
+    if (tol < 1e-9 or dpq[0] / dpq[1] > 0.99) and mi > 24:
+        mi = rng.choice([1, 2, 5, 12])  # would not converge (or only after ~1e12 iterations): keep the run (and the Q model) short
     res = rng.choice([1.0, 1, 2, 1e-12, 1e-9, 1e9, 2.0**53, 2**60, 0.999999999, 1.000000001, 0.3 - 0.1 - 0.2 + 1.0, 1e-300])
     return dpq, tol, mi, res
 
@@ -190,12 +176,12 @@ def structured(tier):
     pr_uniform=bool, lv=bool, pr_iter=int)"""
     out = []
     big = tier == "thorough"
-    for n in [17, 65, 257, 801, 1025, 2049] + ([65537] if big else []):
+    for n in [17, 65, 257, 801, 1025, 2049, 4097, 65537] + ([100000, 300000] if big else []):
         nodes, f = _path(n)
         out.append((f"path{n}", nodes, f, dict(cut=set(range(1, n - 1)), bridges={(i, i + 1) for i in range(n - 1)}, core=lambda v: 1,
-                                                depth=n, lv=n <= 2049, pr_iter=100 if n <= 2049 else 3)))
+                                                depth=n, lv=n <= 4097, pr_iter=100 if n <= 2049 else 3)))
         nodes, f = _cycle(n)
-        out.append((f"cycle{n}", nodes, f, dict(cut=set(), bridges=set(), core=lambda v: 2, depth=n, pr_uniform=True, lv=n <= 2049, pr_iter=100)))
+        out.append((f"cycle{n}", nodes, f, dict(cut=set(), bridges=set(), core=lambda v: 2, depth=n, pr_uniform=True, lv=n <= 4097, pr_iter=100)))
     for n in [17, 257, 2049] + ([65537, 100000] if big else [65537]):
         nodes, f = _star(n)
         out.append((f"star{n}", nodes, f, dict(cut={0}, bridges={(0, i) for i in range(1, n + 1)}, core=lambda v: 1, depth=2,
@@ -303,9 +289,6 @@ def run_structured(ctx, bad):
 
         for fname, fn, want in (("articulation_points", articulation_points, ex["cut"]), ("bridges", bridges, ex["bridges"])):
             r = call(fn, list(nodes), f)
-            if r[0] == "exc" and r[1] == "RecursionError" and ex["depth"] >= 900:
-                gate(ctx, KF_DEPTH, f"{fname} raises RecursionError on {name} (DFS depth {ex['depth']})", {**rep, "fn": fname}, bad)
-                continue
             if r[0] != "ok":
                 bad.append((f"{fname} on {name}: implementation {r[0]} {r[1:]}", {**rep, "fn": fname}))
                 continue
@@ -467,7 +450,7 @@ def artic_events(nodes, nb):
 def events_of(nodes, nb, dpq, tol, max_iter, op, ol):
     ev = kcore_events(nodes, nb) | artic_events(nodes, nb)
     if op is not None and nodes:
-        if op["status"] == "OPTIMAL" and op["iterations"] == max_iter:
+        if op["status"] == "OPTIMAL" and op["iterations"] == max_iter >= 3:
             ev.add("pr_optimal_at_max_iter")
         if max_iter == 0:
             ev.add("pr_max_iter_0")
